@@ -336,14 +336,12 @@ func cmdCheck(id, tier string) int {
 	}
 	sort.Strings(fk)
 	fmt.Println("faults fired:", strings.Join(fk, " "))
-	ks := make([]string, 0, len(known))
-	for k := range known {
-		ks = append(ks, k)
-	}
-	sort.Strings(ks)
-	for _, k := range ks {
-		parts := strings.SplitN(k, " ", 2)
-		fmt.Printf("KNOWN-FINDING: property=%s %s (hit %d times)\n", parts[0], parts[1], known[k])
+	// one line per listed open finding of this property (hit or not in this batch); the list is read-only at run time
+	for _, kf := range loadKnown(filepath.Join(verifDir(), "known_findings.json")) {
+		if kf.Status != "open" || (kf.Property != id && !(id == "C09L" && kf.Property == "C09") && !(id == "C18L" && kf.Property == "C18")) {
+			continue
+		}
+		fmt.Printf("KNOWN-FINDING: property=%s %s (hit %d times in this batch)\n", kf.Property, kf.What, known[kf.Property+" "+kf.What])
 	}
 	if len(vioLines) > 0 {
 		for _, l := range vioLines {
